@@ -206,7 +206,10 @@ class Interp06(Interp04):
             aa = evo.RK4_A if s["kind"] == "pc_tdrk4" else RungeKutta(s["rk"]).tableau[0]
             zz = (-ins["dt"] if ins["imag"] else -1j * ins["dt"])
             v0 = chain.tensors_dense(x).astype(complex)
-            if evo.rk_stage_min_norm(aa, zz * H, v0) <= 1e-8 * np.linalg.norm(v0):
+            bb = ([1 / 6, 1 / 3, 1 / 3, 1 / 6] if s["kind"] == "pc_tdrk4" else RungeKutta(s["rk"]).tableau[1][0])
+            if evo.rk_stage_min_norm(aa, zz * H, v0) <= 1e-8 * np.linalg.norm(v0) or \
+                    np.linalg.norm(evo.stability_poly_apply(aa, bb, zz * H, v0)) <= 1e-8 * np.linalg.norm(v0):
+                # ... or the step itself maps the state to zero (Forward Euler in imaginary time: (1 - tau H) psi = 0)
                 self.r.classes.append("evolve.pc.vanishing_stage_rejected")
                 return
         if s.get("fam") == "pc":
@@ -233,7 +236,7 @@ class Interp06(Interp04):
                 sg, in_lib = lib_exception_sig(e)
                 if not in_lib:
                     raise
-                if sg.endswith("_push_cano"):
+                if sg.endswith("_push_cano") or sg.endswith("mp.py:scale"):  # the two zero-tensor assertions of the library
                     self.r.classes.append("evolve.pc.truncated_stage_vanished")
                     return
                 self.r.fail(f"evolve.{s['kind']}.{sg}", f"{e!r} trace={self.trace[-6:]}")
